@@ -178,7 +178,7 @@ def build_for(pid, table_ids=None):
             ok2, log2 = link()
             out['model_ok'] = ok2
             out['log'] += log2[-2000:]
-        deps = [pid + '/Lemmas.vo'] if os.path.exists(os.path.join(COQ, pid, 'Lemmas.v')) else []
+        deps = [pid + '/Props.vo'] if os.path.exists(os.path.join(COQ, pid, 'Props.v')) else []
         ok3, log3 = make(deps) if deps else (True, '')
         out['lemmas_ok'] = ok3
         out['log'] += log3[-6000:]
